@@ -409,6 +409,9 @@ def _shares(ck):
                 fs = [x.get('f') for sd in (n['l'], n['r']) for x in walk(sd) if x.get('k') == 'Field' and 'KnownClasses' in (x.get('adt') or '')]
                 if fs:
                     cmp_sites.append((fn, n, fs))
+    ck.explanation += (' R11.9 the QObject-derived well-known classes (a frozen, reviewed list of KnownClasses fields; value classes are exempt) are tested with '
+                       'is_derived_from only, never by ==: an object of a derived class, or of a component rooted at one, is treated as its base. The list fails closed when '
+                       'a new field is tested by derivation or a listed field disappears.')
     # frozen from the tree as reviewed: the QObject-derived well-known classes (the others are value classes)
     FAMILY = {'action', 'combo_box', 'form_layout', 'grid_layout', 'hbox_layout', 'layout', 'list_widget', 'menu', 'object', 'push_button', 'spacer_item', 'tab_widget',
               'table_view', 'tree_view', 'vbox_layout', 'widget'}
